@@ -8,6 +8,7 @@
 
 #include <cerrno>
 #include <dlfcn.h>
+#include <ctime>
 #include <pthread.h>
 #include <unordered_map>
 #include <vector>
@@ -163,6 +164,43 @@ int pthread_mutex_lock(pthread_mutex_t *m) {
   event(K_MLOCKED, idx, 0);
   if (g_mobs) g_mobs(1, idx, self());
   return 0;
+}
+
+// timed lock: waits in simulated time; the deadline is compared with the simulated clock of wrap_time.cc
+static int sim_timedlock(pthread_mutex_t *m, clockid_t clk, const struct timespec *abstime) {
+  sim::Harness harness_scope;
+  long idx = mstate(m).index;
+  if (g_mobs) g_mobs(0, idx, self());
+  point(K_MLOCK, idx);
+  for (;;) {
+    MutexState &s = mstate(m);
+    if (!s.locked) {
+      s.locked = true;
+      s.owner = self();
+      held_add(s.owner, 1);
+      event(K_MLOCKED, idx, 2);
+      if (g_mobs) g_mobs(1, idx, self());
+      return 0;
+    }
+    struct timespec now;
+    clock_gettime(clk, &now);  // the harness's own definition: simulated time
+    if (abstime && (now.tv_sec > abstime->tv_sec || (now.tv_sec == abstime->tv_sec && now.tv_nsec >= abstime->tv_nsec))) return ETIMEDOUT;
+    sleep_ns(tick_ns());       // not runnable until the clock has advanced; PCT lowers its priority (fairness)
+  }
+}
+
+int pthread_mutex_timedlock(pthread_mutex_t *m, const struct timespec *abstime) {
+  typedef int (*fn)(pthread_mutex_t *, const struct timespec *);
+  static fn real = real_sym<fn>("pthread_mutex_timedlock");
+  if (!active()) return real(m, abstime);
+  return sim_timedlock(m, CLOCK_REALTIME, abstime);
+}
+
+int pthread_mutex_clocklock(pthread_mutex_t *m, clockid_t clk, const struct timespec *abstime) {
+  typedef int (*fn)(pthread_mutex_t *, clockid_t, const struct timespec *);
+  static fn real = real_sym<fn>("pthread_mutex_clocklock");
+  if (!active()) return real(m, clk, abstime);
+  return sim_timedlock(m, clk, abstime);
 }
 
 int pthread_mutex_trylock(pthread_mutex_t *m) {
